@@ -1228,6 +1228,24 @@ theorem hfo_incr (st : St) (sh : Shape) (dt : String) (col strict : Bool) (r : D
   unfold handleFuncOpts
   simp [h.dt, h.len, h.shape, bind, Except.bind, pure, Except.pure]
 
+/-! ### engine glue: operands that share memory with the destination (`operandFor`) -/
+
+theorem sharesMemory_of_buf_ne {p q : Dense} (h : p.win.buf ≠ q.win.buf) : sharesMemory p q = false := by
+  simp [sharesMemory, h]
+
+theorem prepAliasVV_none (s : St) (a b : Dense) : prepAliasVV s a b none = .ok (s, a, b) := rfl
+
+theorem prepAliasT_none (s : St) (t : Dense) : prepAliasT s t none = .ok (s, t) := rfl
+
+/-- no operand shares memory with the destination: nothing is copied -/
+theorem prepAliasVV_sep (s : St) (a b r : Dense) (ha : sharesMemory a r = false) (hb : sharesMemory b r = false) :
+    prepAliasVV s a b (some r) = .ok (s, a, b) := by
+  simp [prepAliasVV, operandFor, ha, hb, bind, Except.bind, pure, Except.pure]
+
+theorem prepAliasT_sep (s : St) (t r : Dense) (ht : sharesMemory t r = false) :
+    prepAliasT s t (some r) = .ok (s, t) := by
+  simp [prepAliasT, operandFor, ht, pure, Except.pure]
+
 theorem itStream_nomask (st : St) (t : Dense) (hm : t.mask = none) :
     t.itStream st = .ok (t.offsets.map (·, true)) := by
   unfold Dense.itStream
@@ -1258,7 +1276,7 @@ theorem engArithVV_raw_safe (st : St) (op : String) (tc : List String) (a b : De
       let s ← eOp s c.win b.win (fun x y => .app2 op x y) (vecFn op a.dt)
       pure ⟨s, none, .fresh c⟩) := by
   unfold engArithVV
-  simp only [hc.ta, hc.tb, hc.ne, hc.sh, hfo_none, hk, hia, hib, hord, bind, Except.bind, pure, Except.pure,
+  simp only [hc.ta, hc.tb, hc.ne, hc.sh, hfo_none, prepAliasVV_none, prepAliasT_none, hk, hia, hib, hord, bind, Except.bind, pure, Except.pure,
     Bool.not_true, Bool.false_eq_true, if_false, Bool.or_false, Bool.and_false, Bool.not_false,
     Bool.and_true]
 
@@ -1269,7 +1287,7 @@ theorem engArithVV_raw_unsafe (st : St) (op : String) (tc : List String) (a b : 
       let s ← eOp st a.win b.win (fun x y => .app2 op x y) (vecFn op a.dt)
       pure ⟨s, none, .a⟩) := by
   unfold engArithVV
-  simp only [hc.ta, hc.tb, hc.ne, hc.sh, hfo_none, hk, hia, hib, hord, bind, Except.bind, pure, Except.pure,
+  simp only [hc.ta, hc.tb, hc.ne, hc.sh, hfo_none, prepAliasVV_none, prepAliasT_none, hk, hia, hib, hord, bind, Except.bind, pure, Except.pure,
     Bool.not_true, Bool.false_eq_true, if_false, Bool.or_false, Bool.and_false, Bool.not_false,
     Bool.and_true, if_true]
 
@@ -1281,13 +1299,14 @@ theorem sameOrd_of_col {a b r : Dense} (hord : sameOrd a b = true) (hcol : r.ap.
 theorem engArithVV_raw_reuse (st : St) (op : String) (tc : List String) (a b r : Dense) (hc : BinOK tc a b)
     (hk : (kernelTypes op).contains a.dt = true) (hia : a.requiresIterator = false)
     (hib : b.requiresIterator = false) (hir : r.requiresIterator = false) (hord : sameOrd a b = true)
-    (hr : ReuseFits r a.shape a.dt a.ap.o.col) :
+    (hr : ReuseFits r a.shape a.dt a.ap.o.col)
+    (hsa : sharesMemory a r = false) (hsb : sharesMemory b r = false) :
     engArithVV st op tc a b { reuse := some r } = (do
       let s ← eOpRecv st a.win b.win r.win (fun x y => .app2 op x y)
       pure ⟨s, some r, .reuse⟩) := by
   obtain ⟨h1, h2⟩ := sameOrd_of_col hord hr.col
   unfold engArithVV
-  simp only [hc.ta, hc.tb, hc.ne, hc.sh, hfo_reuse _ _ _ _ _ _ hr, hk, hia, hib, hir, hord, h1, h2, bind,
+  simp only [hc.ta, hc.tb, hc.ne, hc.sh, hfo_reuse _ _ _ _ _ _ hr, prepAliasVV_sep _ _ _ _ hsa hsb, hk, hia, hib, hir, hord, h1, h2, bind,
     Except.bind, pure, Except.pure,
     Bool.not_true, Bool.false_eq_true, if_false, Bool.or_false, Bool.and_false, Bool.not_false,
     Bool.and_true, if_true, Bool.false_and]
@@ -1295,14 +1314,15 @@ theorem engArithVV_raw_reuse (st : St) (op : String) (tc : List String) (a b r :
 theorem engArithVV_raw_incr (st : St) (op : String) (tc : List String) (a b r : Dense) (hc : BinOK tc a b)
     (hk : (kernelTypes op).contains a.dt = true) (hia : a.requiresIterator = false)
     (hib : b.requiresIterator = false) (hir : r.requiresIterator = false) (hord : sameOrd a b = true)
-    (hr : ReuseFits r a.shape a.dt a.ap.o.col) :
+    (hr : ReuseFits r a.shape a.dt a.ap.o.col)
+    (hsa : sharesMemory a r = false) (hsb : sharesMemory b r = false) :
     engArithVV st op tc a b { incr := some r } = (do
       if incrRefused a.win b.win r.win then return ⟨st, some r, .failed⟩
       let s ← eOpIncr st a.win b.win r.win (fun x y => .app2 op x y) (vecFn op a.dt)
       pure ⟨s, some r, .reuse⟩) := by
   obtain ⟨h1, h2⟩ := sameOrd_of_col hord hr.col
   unfold engArithVV
-  simp only [hc.ta, hc.tb, hc.ne, hc.sh, hfo_incr _ _ _ _ _ _ hr, hk, hia, hib, hir, hord, h1, h2, bind,
+  simp only [hc.ta, hc.tb, hc.ne, hc.sh, hfo_incr _ _ _ _ _ _ hr, prepAliasVV_sep _ _ _ _ hsa hsb, hk, hia, hib, hir, hord, h1, h2, bind,
     Except.bind, pure, Except.pure,
     Bool.not_true, Bool.false_eq_true, if_false, Bool.or_false, Bool.and_false, Bool.not_false,
     Bool.and_true, if_true, Bool.false_and]
@@ -1316,7 +1336,7 @@ theorem engArithVV_iter_safe (st : St) (op : String) (tc : List String) (a b : D
         (vecFn op a.dt)
       pure ⟨s, none, .fresh c⟩) := by
   unfold engArithVV
-  simp only [hc.ta, hc.tb, hc.ne, hc.sh, hfo_none, hk, hia, itStream_nomask _ _ hma, itStream_nomask _ _ hmb,
+  simp only [hc.ta, hc.tb, hc.ne, hc.sh, hfo_none, prepAliasVV_none, prepAliasT_none, hk, hia, itStream_nomask _ _ hma, itStream_nomask _ _ hmb,
     bind, Except.bind, pure, Except.pure,
     Bool.not_true, Bool.false_eq_true, if_false, Bool.or_false, Bool.and_false, Bool.not_false,
     Bool.and_true, if_true, Bool.true_or]
@@ -1324,7 +1344,8 @@ theorem engArithVV_iter_safe (st : St) (op : String) (tc : List String) (a b : D
 theorem engArithVV_iter_reuse (st : St) (op : String) (tc : List String) (a b r : Dense) (hc : BinOK tc a b)
     (hk : (kernelTypes op).contains a.dt = true) (hia : a.requiresIterator = true)
     (hma : a.mask = none) (hmb : b.mask = none) (hmr : r.mask = none)
-    (hr : ReuseFits r a.shape a.dt a.ap.o.col) :
+    (hr : ReuseFits r a.shape a.dt a.ap.o.col)
+    (hsa : sharesMemory a r = false) (hsb : sharesMemory b r = false) :
     engArithVV st op tc a b { reuse := some r } = (do
       let s ← Dense.copyIterOffsets st r.win a.win r.offsets a.offsets
       let s ← eOpIter s r.win b.win (fun x y => .app2 op x y) (r.offsets.map (·, true)) (b.offsets.map (·, true))
@@ -1335,7 +1356,7 @@ theorem engArithVV_iter_reuse (st : St) (op : String) (tc : List String) (a b r 
     | nil => rfl
     | cons x xs ih => simp only [List.map_cons, ih]
   unfold engArithVV
-  simp only [hc.ta, hc.tb, hc.ne, hc.sh, hfo_reuse _ _ _ _ _ _ hr, hk, hia, itStream_nomask _ _ hma,
+  simp only [hc.ta, hc.tb, hc.ne, hc.sh, hfo_reuse _ _ _ _ _ _ hr, prepAliasVV_sep _ _ _ _ hsa hsb, hk, hia, itStream_nomask _ _ hma,
     itStream_nomask _ _ hmb, itStream_nomask _ _ hmr, hmap,
     bind, Except.bind, pure, Except.pure,
     Bool.not_true, Bool.false_eq_true, if_false, Bool.or_false, Bool.and_false, Bool.not_false,
@@ -1426,7 +1447,7 @@ theorem engArithVV_reuse_raw' (st : St) (op : String) (tc : List String) (a b r 
     ∃ st', engArithVV st op tc a b { reuse := some r } = .ok ⟨st', some r, .reuse⟩ ∧
       Writes st st' r.win.buf r.win.off r.win.len (fun i =>
         .app2 op (cellD st a.win.buf (a.win.off + i)) (cellD st b.win.buf (b.win.off + i))) := by
-  rw [engArithVV_raw_reuse st op tc a b r hc hk hia hib hir hord hr]
+  rw [engArithVV_raw_reuse st op tc a b r hc hk hia hib hir hord hr (sharesMemory_of_buf_ne hna) (sharesMemory_of_buf_ne hnb)]
   obtain ⟨s2, h2, w2⟩ := kRecvVV_spec st a.win b.win r.win (fun x y => .app2 op x y) hna hnb hca hcb
     hA.has hB.has hR.has
   exact ⟨s2, by simp only [eOpRecv, h2, bind, Except.bind]; rfl, w2⟩
@@ -1446,31 +1467,138 @@ theorem engArithVV_incr_raw' (st : St) (op : String) (tc : List String) (a b r :
         accAdd (cellD st r.win.buf (r.win.off + i))
           (vecFn op a.dt (cellD st a.win.buf (a.win.off + i)) (cellD st b.win.buf (b.win.off + i)))) := by
   have hnr : incrRefused a.win b.win r.win = false := by simp [incrRefused, isSc, hla, hlb]
-  rw [engArithVV_raw_incr st op tc a b r hc hk hia hib hir hord hr, eOpIncr_VV _ _ _ _ _ _ hla hlb]
+  rw [engArithVV_raw_incr st op tc a b r hc hk hia hib hir hord hr (sharesMemory_of_buf_ne hna) (sharesMemory_of_buf_ne hnb),
+    eOpIncr_VV _ _ _ _ _ _ hla hlb]
   obtain ⟨s2, h2, w2⟩ := kIncrVV_spec st a.win b.win r.win (vecFn op a.dt) accAdd hna hnb hcb hcr
     hA.has hB.has hR.has
   exact ⟨s2, by simp only [hnr, h2, bind, Except.bind, Bool.false_eq_true, if_false]; rfl, w2⟩
 
 
+/-- what `operandFor` returns for an unmasked operand whose window lies in an allocated buffer: the operand itself in the
+    same state, or its clone in a fresh buffer — in both cases a tensor with the operand's metadata whose window holds the
+    operand's elements, every existing cell being as before -/
+theorem operandFor_spec (st : St) (t dst : Dense) (ip : Bool)
+    (hm : sharesMemory t dst = true → t.mask = none) (hin : t.win.buf < st.heap.size)
+    (hh : Has st t.win.buf t.win.off t.win.len) :
+    ∃ s1 t', operandFor st t dst ip = .ok (s1, t') ∧ s1.mheap = st.mheap ∧ st.heap.size ≤ s1.heap.size ∧
+      (∀ b k, b < st.heap.size → cell s1 b k = cell st b k) ∧
+      t'.win.len = t.win.len ∧ t'.dt = t.dt ∧ t'.ap.shape = t.ap.shape ∧ t'.ap.strides = t.ap.strides ∧
+      t'.ap.o = t.ap.o ∧ t'.old = t.old ∧ t'.win.buf < s1.heap.size ∧
+      (∀ i, i < t.win.len → cell s1 t'.win.buf (t'.win.off + i) = some (cellD st t.win.buf (t.win.off + i))) ∧
+      ((s1 = st ∧ t' = t) ∨ (sharesMemory t dst = true ∧ t' = cloneOf st t ∧ s1.heap.size = st.heap.size + 1)) := by
+  have hself : ∀ i, i < t.win.len → cell st t.win.buf (t.win.off + i) = some (cellD st t.win.buf (t.win.off + i)) :=
+    fun i hi => cell_some_cellD (hh i hi)
+  by_cases hs : sharesMemory t dst = true
+  · by_cases hp : (ip && sameAccess t dst) = true
+    · exact ⟨st, t, by simp [operandFor, hs, hp, pure, Except.pure], rfl, Nat.le_refl _, fun _ _ _ => rfl, rfl, rfl, rfl,
+        rfl, rfl, rfl, hin, hself, Or.inl ⟨rfl, rfl⟩⟩
+    · obtain ⟨s1, h1, hm1, hs1, hv1, hf1⟩ := clone_spec st t (hm hs) hin hh
+      refine ⟨s1, cloneOf st t, ?_, hm1, by omega, hf1, rfl, rfl, rfl, rfl, rfl, rfl, by simp only [cloneOf]; omega, ?_,
+        Or.inr ⟨hs, rfl, hs1⟩⟩
+      · simp only [operandFor, hs, hp, Bool.not_true, Bool.false_eq_true, if_false]
+        exact h1
+      · intro i hi
+        have := hv1 i hi
+        simpa only [cloneOf, Nat.zero_add] using this
+  · have hs' : sharesMemory t dst = false := by simpa using hs
+    exact ⟨st, t, by simp [operandFor, hs', pure, Except.pure], rfl, Nat.le_refl _, fun _ _ _ => rfl, rfl, rfl, rfl,
+      rfl, rfl, rfl, hin, hself, Or.inl ⟨rfl, rfl⟩⟩
+
+/-- `requiresIterator` only looks at the window length, the order flags, the pending transpose and the mask -/
+theorem requiresIterator_len_one {t : Dense} (h : t.win.len = 1) : t.requiresIterator = false := by
+  simp [Dense.requiresIterator, h]
+
+/-- incr mode on the raw path, in terms of what `prepDataVV` hands to the kernels (`a'`, `b'`: the operands themselves
+    or their copies) -/
+theorem engArithVV_raw_incr_gen (st : St) (op : String) (tc : List String) (a b r : Dense) (hc : BinOK tc a b)
+    (hk : (kernelTypes op).contains a.dt = true) (hr : ReuseFits r a.shape a.dt a.ap.o.col)
+    {s1 : St} {a' b' : Dense} (hpa : prepAliasVV st a b (some r) = .ok (s1, a', b'))
+    (hdt : a'.dt = a.dt) (hia : a'.requiresIterator = false) (hib : b'.requiresIterator = false)
+    (hir : r.requiresIterator = false) (hab : sameOrd a' b' = true) (har : sameOrd a' r = true)
+    (hbr : sameOrd b' r = true) :
+    engArithVV st op tc a b { incr := some r } = (do
+      if incrRefused a'.win b'.win r.win then return ⟨s1, some r, .failed⟩
+      let s ← eOpIncr s1 a'.win b'.win r.win (fun x y => .app2 op x y) (vecFn op a.dt)
+      pure ⟨s, some r, .reuse⟩) := by
+  unfold engArithVV
+  simp only [hc.ta, hc.tb, hc.ne, hc.sh, hfo_incr _ _ _ _ _ _ hr, hpa, hdt, hk, hia, hib, hir, hab, har, hbr, bind,
+    Except.bind, pure, Except.pure,
+    Bool.not_true, Bool.false_eq_true, if_false, Bool.or_false, Bool.and_false, Bool.not_false,
+    Bool.and_true, if_true, Bool.false_and]
+
 /-- incr mode with two one-element operands (finding F32, repaired): `op a0 b0` is added to every cell of the increment;
-    no other cell is written, whatever the aliasing between the three tensors -/
+    no other existing cell is written, whatever the aliasing between the three tensors (an operand that shares memory
+    with the increment is read from a copy) -/
 theorem engArithVV_incr_raw_one' (st : St) (op : String) (tc : List String) (a b r : Dense) (hc : BinOK tc a b)
     (hk : (kernelTypes op).contains a.dt = true) (hir : r.requiresIterator = false) (hord : sameOrd a b = true)
     (hr : ReuseFits r a.shape a.dt a.ap.o.col)
     (hla : a.win.len = 1) (hlb : b.win.len = 1)
+    (hma : sharesMemory a r = true → a.mask = none) (hmb : sharesMemory b r = true → b.mask = none)
     (hA : InBuf st a.win.buf a.win.off 1) (hB : InBuf st b.win.buf b.win.off 1)
     (hR : InBuf st r.win.buf r.win.off r.win.len) :
-    ∃ st', engArithVV st op tc a b { incr := some r } = .ok ⟨st', some r, .reuse⟩ ∧
-      Writes st st' r.win.buf r.win.off r.win.len (fun i =>
-        accAdd (cellD st r.win.buf (r.win.off + i))
-          (vecFn op a.dt (cellD st a.win.buf a.win.off) (cellD st b.win.buf b.win.off))) := by
-  have hia : a.requiresIterator = false := by simp [Dense.requiresIterator, hla]
-  have hib : b.requiresIterator = false := by simp [Dense.requiresIterator, hlb]
-  have hnr : incrRefused a.win b.win r.win = false := by simp [incrRefused, isSc, hla, hlb]
-  rw [engArithVV_raw_incr st op tc a b r hc hk hia hib hir hord hr]
-  obtain ⟨s2, h2, w2⟩ := eOpIncr_SS_spec st a.win b.win r.win (fun x y => .app2 op x y) (vecFn op a.dt) hla hlb
-    hA.has hB.has hR.has
-  exact ⟨s2, by simp only [hnr, h2, bind, Except.bind, Bool.false_eq_true, if_false]; rfl, w2⟩
+    ∃ st', engArithVV st op tc a b { incr := some r } = .ok ⟨st', some r, .reuse⟩ ∧ st'.mheap = st.mheap ∧
+      (∀ i, i < r.win.len → cell st' r.win.buf (r.win.off + i) =
+        some (accAdd (cellD st r.win.buf (r.win.off + i))
+          (vecFn op a.dt (cellD st a.win.buf a.win.off) (cellD st b.win.buf b.win.off)))) ∧
+      (∀ b' k, b' < st.heap.size → (b' ≠ r.win.buf ∨ k < r.win.off ∨ r.win.off + r.win.len ≤ k) →
+        cell st' b' k = cell st b' k) := by
+  -- `prepDataVV`: b, then a
+  obtain ⟨s1, b', h1, hm1, hle1, hf1, hbl, _, _, _, hbo, _, hbin, hbv, _⟩ := operandFor_spec st b r false hmb hB.lt
+    (by rw [hlb]; exact hB.has)
+  have hA1 : Has s1 a.win.buf a.win.off a.win.len := by
+    intro i hi
+    rw [hf1 _ _ hA.lt]; rw [hla] at hi; exact hA.has i hi
+  have hsm : sharesMemory a r = true → a.mask = none := hma
+  obtain ⟨s2, a', h2, hm2, hle2, hf2, hal, hadt, _, _, hao, _, hain, hav, _⟩ := operandFor_spec s1 a r true hsm
+    (by have := hA.lt; omega) hA1
+  have hpa : prepAliasVV st a b (some r) = .ok (s2, a', b') := by
+    simp only [prepAliasVV, h1, h2, bind, Except.bind, pure, Except.pure]
+  have hia : a'.requiresIterator = false := requiresIterator_len_one (by rw [hal, hla])
+  have hib : b'.requiresIterator = false := requiresIterator_len_one (by rw [hbl, hlb])
+  have hcolr := hr.col
+  have hab : sameOrd a' b' = true := by
+    simp only [sameOrd, beq_iff_eq] at hord ⊢
+    rw [hao, hbo]; exact hord
+  have har : sameOrd a' r = true := by
+    simp only [sameOrd, beq_iff_eq]
+    rw [hao, hcolr]
+  have hbr : sameOrd b' r = true := by
+    simp only [sameOrd, beq_iff_eq] at hord ⊢
+    rw [hbo, hcolr, hord]
+  have hnr : incrRefused a'.win b'.win r.win = false := by simp [incrRefused, isSc, hal, hla, hbl, hlb]
+  rw [engArithVV_raw_incr_gen st op tc a b r hc hk hr hpa hadt hia hib hir hab har hbr]
+  have hA2 : Has s2 a'.win.buf a'.win.off 1 := by
+    intro i hi
+    rw [hav i (by omega)]; rfl
+  have hB2 : Has s2 b'.win.buf b'.win.off 1 := by
+    intro i hi
+    rw [hf2 _ _ hbin, hbv i (by omega)]; rfl
+  have hR2 : Has s2 r.win.buf r.win.off r.win.len := by
+    intro i hi
+    rw [hf2 _ _ (by have := hR.lt; omega), hf1 _ _ hR.lt]; exact hR.has i hi
+  obtain ⟨s3, h3, w3⟩ := eOpIncr_SS_spec s2 a'.win b'.win r.win (fun x y => .app2 op x y) (vecFn op a.dt)
+    (by rw [hal, hla]) (by rw [hbl, hlb]) hA2 hB2 hR2
+  have ea : cellD s2 a'.win.buf a'.win.off = cellD st a.win.buf a.win.off := by
+    have := hav 0 (by omega)
+    simp only [Nat.add_zero] at this
+    rw [cellD_of_some this]
+    unfold cellD
+    rw [hf1 _ _ hA.lt]
+  have eb : cellD s2 b'.win.buf b'.win.off = cellD st b.win.buf b.win.off := by
+    have := hbv 0 (by omega)
+    simp only [Nat.add_zero] at this
+    unfold cellD
+    rw [hf2 _ _ hbin, this]; rfl
+  refine ⟨s3, by simp only [hnr, h3, bind, Except.bind, Bool.false_eq_true, if_false]; rfl,
+    w3.mheap.trans (hm2.trans hm1), ?_, ?_⟩
+  · intro i hi
+    rw [w3.val i hi, ea, eb]
+    have : cellD s2 r.win.buf (r.win.off + i) = cellD st r.win.buf (r.win.off + i) := by
+      unfold cellD
+      rw [hf2 _ _ (by have := hR.lt; omega), hf1 _ _ hR.lt]
+    rw [this]
+  · intro b'' k hb'' hbk
+    rw [w3.frame b'' k hbk, hf2 _ _ (by omega), hf1 _ _ hb'']
 
 /-! ### iterator path -/
 
@@ -1557,6 +1685,63 @@ theorem engArithVV_safe_iter' (st : St) (op : String) (tc : List String) (a b : 
   · intro b' k hb'
     rw [hf2 _ _ (Or.inl (Nat.ne_of_lt hb')), hf1 b' k hb']
 
+/-- the iterator of a clone is the iterator of the original -/
+theorem cloneOf_offsets (st : St) (t : Dense) : (cloneOf st t).offsets = t.offsets := rfl
+
+/-- **F10 repaired** (`operandFor`): a second operand that shares memory with the reuse tensor is read from a copy made
+    before anything is written — the call is the call on that copy -/
+theorem engArithVV_reuse_alias_b (st : St) (op : String) (tc : List String) (a b r : Dense) (hc : BinOK tc a b)
+    (hr : ReuseFits r a.shape a.dt a.ap.o.col)
+    (hsb : sharesMemory b r = true) (hsa : sharesMemory a r = false) (hrl : r.win.buf < st.heap.size)
+    {s1 : St} (h1 : b.clone st = .ok (s1, cloneOf st b)) :
+    engArithVV st op tc a b { reuse := some r } = engArithVV s1 op tc a (cloneOf st b) { reuse := some r } := by
+  have hsb' : sharesMemory (cloneOf st b) r = false :=
+    sharesMemory_of_buf_ne (by simp only [cloneOf]; exact (Nat.ne_of_lt hrl).symm)
+  have hdt' : (cloneOf st b).dt = b.dt := rfl
+  have hsh' : (cloneOf st b).shape = b.shape := rfl
+  have hpa : prepAliasVV st a b (some r) = .ok (s1, a, cloneOf st b) := by
+    simp [prepAliasVV, operandFor, hsb, hsa, h1, bind, Except.bind, pure, Except.pure]
+  unfold engArithVV
+  simp only [hc.ta, hc.tb, hc.ne, hc.sh, hdt', hsh', hfo_reuse _ _ _ _ _ _ hr, hpa, prepAliasVV_sep _ _ _ _ hsa hsb',
+    bind, Except.bind, pure, Except.pure, Bool.not_true, Bool.false_eq_true, if_false]
+
+/-- reuse on the iterator path in terms of `Has` (cells exist) instead of `InBuf` -/
+theorem engArithVV_reuse_iter_has' (st : St) (op : String) (tc : List String) (a b r : Dense) (hc : BinOK tc a b)
+    (hk : (kernelTypes op).contains a.dt = true) (hia : a.requiresIterator = true)
+    (hma : a.mask = none) (hmb : b.mask = none) (hmr : r.mask = none)
+    (hr : ReuseFits r a.shape a.dt a.ap.o.col)
+    (hnra : r.win.buf ≠ a.win.buf) (hnrb : r.win.buf ≠ b.win.buf)
+    (hlr : r.win.len ≠ 1) (hlb : b.win.len ≠ 1) (hcr : r.win.len ≤ r.win.cap) (hca : a.win.len ≤ a.win.cap)
+    (hor : ∀ i ∈ r.offsets, 0 ≤ i ∧ i < (r.win.len : Int)) (hoa : ∀ i ∈ a.offsets, 0 ≤ i ∧ i < (a.win.len : Int))
+    (hob : ∀ j ∈ b.offsets, 0 ≤ j ∧ j < (b.win.len : Int)) (hnd : r.offsets.Nodup)
+    (hA : Has st a.win.buf a.win.off a.win.len) (hB : Has st b.win.buf b.win.off b.win.len)
+    (hR : Has st r.win.buf r.win.off r.win.len) :
+    ∃ st', engArithVV st op tc a b { reuse := some r } = .ok ⟨st', some r, .reuse⟩ ∧ st'.mheap = st.mheap ∧
+      (∀ (k : Nat) m i j, r.offsets[k]? = some m → a.offsets[k]? = some i → b.offsets[k]? = some j →
+        cell st' r.win.buf (r.win.off + m.toNat) =
+          some (.app2 op (cellD st a.win.buf (a.win.off + i.toNat)) (cellD st b.win.buf (b.win.off + j.toNat)))) ∧
+      (∀ b' k', b' ≠ r.win.buf → cell st' b' k' = cell st b' k') := by
+  rw [engArithVV_iter_reuse st op tc a b r hc hk hia hma hmb hmr hr (sharesMemory_of_buf_ne hnra.symm)
+    (sharesMemory_of_buf_ne hnrb.symm)]
+  obtain ⟨s1, h1, hm1, _, hv1, hf1⟩ := copyIterOffsets_spec st r.win a.win r.offsets a.offsets r.win.len a.win.len
+    hnra hcr hca hor hoa hnd hR hA
+  simp only [h1, bind, Except.bind]
+  rw [eOpIter_VV _ _ _ _ _ _ _ hlr hlb]
+  have hkeep : ∀ {b off n : Nat}, Has st b off n → Has s1 b off n :=
+    copyIterOffsets_has st s1 r.win r.offsets a.offsets
+      (fun k i j hi hj => by rw [hv1 k i j hi hj]; rfl) hf1
+  obtain ⟨s2, h2, hm2, _, hv2, hf2⟩ := kIterVV_spec s1 r.win b.win (fun x y => .app2 op x y)
+    (r.offsets.map (·, true)) (b.offsets.map (·, true)) hnrb
+    (inRange_map_true hor) (inRange_map_true hob) (by rw [map_true_fst]; exact hnd) (hkeep hR) (hkeep hB)
+  refine ⟨s2, by rw [h2]; rfl, hm2.trans hm1, ?_, ?_⟩
+  · intro k m i j hm hi hj
+    rw [hv2 k m true j true (getElem?_map_true hm) (getElem?_map_true hj) rfl rfl,
+      cellD_of_some (hv1 k m i hm hi)]
+    unfold cellD
+    rw [hf1 _ _ (Or.inl hnrb.symm)]
+  · intro b' k' hb'
+    rw [hf2 _ _ (Or.inl hb'), hf1 _ _ (Or.inl hb')]
+
 /-- reuse on the iterator path, reuse buffer different from both operand buffers -/
 theorem engArithVV_reuse_iter' (st : St) (op : String) (tc : List String) (a b r : Dense) (hc : BinOK tc a b)
     (hk : (kernelTypes op).contains a.dt = true) (hia : a.requiresIterator = true)
@@ -1572,26 +1757,53 @@ theorem engArithVV_reuse_iter' (st : St) (op : String) (tc : List String) (a b r
       (∀ (k : Nat) m i j, r.offsets[k]? = some m → a.offsets[k]? = some i → b.offsets[k]? = some j →
         cell st' r.win.buf (r.win.off + m.toNat) =
           some (.app2 op (cellD st a.win.buf (a.win.off + i.toNat)) (cellD st b.win.buf (b.win.off + j.toNat)))) ∧
-      (∀ b' k', b' ≠ r.win.buf → cell st' b' k' = cell st b' k') := by
-  rw [engArithVV_iter_reuse st op tc a b r hc hk hia hma hmb hmr hr]
-  obtain ⟨s1, h1, hm1, _, hv1, hf1⟩ := copyIterOffsets_spec st r.win a.win r.offsets a.offsets r.win.len a.win.len
-    hnra hcr hca hor hoa hnd hR.has hA.has
-  simp only [h1, bind, Except.bind]
-  rw [eOpIter_VV _ _ _ _ _ _ _ hlr hlb]
-  have hkeep : ∀ {b off n : Nat}, Has st b off n → Has s1 b off n :=
-    copyIterOffsets_has st s1 r.win r.offsets a.offsets
-      (fun k i j hi hj => by rw [hv1 k i j hi hj]; rfl) hf1
-  obtain ⟨s2, h2, hm2, _, hv2, hf2⟩ := kIterVV_spec s1 r.win b.win (fun x y => .app2 op x y)
-    (r.offsets.map (·, true)) (b.offsets.map (·, true)) hnrb
-    (inRange_map_true hor) (inRange_map_true hob) (by rw [map_true_fst]; exact hnd) (hkeep hR.has) (hkeep hB.has)
-  refine ⟨s2, by rw [h2]; rfl, hm2.trans hm1, ?_, ?_⟩
+      (∀ b' k', b' ≠ r.win.buf → cell st' b' k' = cell st b' k') :=
+  engArithVV_reuse_iter_has' st op tc a b r hc hk hia hma hmb hmr hr hnra hnrb hlr hlb hcr hca hor hoa hob hnd
+    hA.has hB.has hR.has
+
+/-- **F10 repaired**: reuse on the iterator path with a reuse tensor that shares memory with the second operand (it may
+    *be* the second operand): the reuse tensor receives `a[i] op b[j]` with `b`'s elements as they were before the call;
+    no other existing buffer changes -/
+theorem engArithVV_reuse_iter_alias' (st : St) (op : String) (tc : List String) (a b r : Dense) (hc : BinOK tc a b)
+    (hk : (kernelTypes op).contains a.dt = true) (hia : a.requiresIterator = true)
+    (hma : a.mask = none) (hmb : b.mask = none) (hmr : r.mask = none)
+    (hr : ReuseFits r a.shape a.dt a.ap.o.col)
+    (hnra : r.win.buf ≠ a.win.buf) (hsb : sharesMemory b r = true)
+    (hlr : r.win.len ≠ 1) (hlb : b.win.len ≠ 1) (hcr : r.win.len ≤ r.win.cap) (hca : a.win.len ≤ a.win.cap)
+    (hor : ∀ i ∈ r.offsets, 0 ≤ i ∧ i < (r.win.len : Int)) (hoa : ∀ i ∈ a.offsets, 0 ≤ i ∧ i < (a.win.len : Int))
+    (hob : ∀ j ∈ b.offsets, 0 ≤ j ∧ j < (b.win.len : Int)) (hnd : r.offsets.Nodup)
+    (hA : InBuf st a.win.buf a.win.off a.win.len) (hB : InBuf st b.win.buf b.win.off b.win.len)
+    (hR : InBuf st r.win.buf r.win.off r.win.len) :
+    ∃ st', engArithVV st op tc a b { reuse := some r } = .ok ⟨st', some r, .reuse⟩ ∧ st'.mheap = st.mheap ∧
+      (∀ (k : Nat) m i j, r.offsets[k]? = some m → a.offsets[k]? = some i → b.offsets[k]? = some j →
+        cell st' r.win.buf (r.win.off + m.toNat) =
+          some (.app2 op (cellD st a.win.buf (a.win.off + i.toNat)) (cellD st b.win.buf (b.win.off + j.toNat)))) ∧
+      (∀ b' k', b' < st.heap.size → b' ≠ r.win.buf → cell st' b' k' = cell st b' k') := by
+  obtain ⟨s1, h1, hm1, hs1, hv1, hf1⟩ := clone_spec st b hmb hB.lt hB.has
+  rw [engArithVV_reuse_alias_b st op tc a b r hc hr hsb (sharesMemory_of_buf_ne hnra.symm) hR.lt h1]
+  have hc' : BinOK tc a (cloneOf st b) := ⟨hc.ta, hc.dt, hc.sh⟩
+  have hA1 : Has s1 a.win.buf a.win.off a.win.len := fun i hi => by rw [hf1 _ _ hA.lt]; exact hA.has i hi
+  have hR1 : Has s1 r.win.buf r.win.off r.win.len := fun i hi => by rw [hf1 _ _ hR.lt]; exact hR.has i hi
+  have hB1 : Has s1 (cloneOf st b).win.buf (cloneOf st b).win.off (cloneOf st b).win.len := by
+    intro i hi
+    simp only [cloneOf, Nat.zero_add] at hi ⊢
+    rw [hv1 i hi]; rfl
+  obtain ⟨s2, h2, hm2, hv2, hf2⟩ := engArithVV_reuse_iter_has' s1 op tc a (cloneOf st b) r hc' hk hia hma rfl hmr hr hnra
+    (by simp only [cloneOf]; exact Nat.ne_of_lt hR.lt) hlr (by simp only [cloneOf]; exact hlb) hcr hca hor hoa
+    (by rw [cloneOf_offsets]; simpa only [cloneOf] using hob) hnd hA1 hB1 hR1
+  refine ⟨s2, h2, hm2.trans hm1, ?_, ?_⟩
   · intro k m i j hm hi hj
-    rw [hv2 k m true j true (getElem?_map_true hm) (getElem?_map_true hj) rfl rfl,
-      cellD_of_some (hv1 k m i hm hi)]
-    unfold cellD
-    rw [hf1 _ _ (Or.inl hnrb.symm)]
-  · intro b' k' hb'
-    rw [hf2 _ _ (Or.inl hb'), hf1 _ _ (Or.inl hb')]
+    have hjr := hob j (List.mem_of_getElem? hj)
+    rw [hv2 k m i j hm hi (by rw [cloneOf_offsets]; exact hj)]
+    have e1 : cellD s1 a.win.buf (a.win.off + i.toNat) = cellD st a.win.buf (a.win.off + i.toNat) := by
+      unfold cellD; rw [hf1 _ _ hA.lt]
+    have e2 : cellD s1 (cloneOf st b).win.buf ((cloneOf st b).win.off + j.toNat) =
+        cellD st b.win.buf (b.win.off + j.toNat) := by
+      simp only [cloneOf, Nat.zero_add]
+      exact cellD_of_some (hv1 j.toNat (by omega))
+    rw [e1, e2]
+  · intro b' k' hb' hne
+    rw [hf2 _ _ hne, hf1 _ _ hb']
 
 /-! ### `engCmpVV` / `engCmpScalar` -/
 
@@ -1601,7 +1813,7 @@ theorem engCmpVV_raw_default (st : St) (op : String) (tc : List String) (a b : D
       let s ← eCmp (allocZero st (denseLen a.shape)) a.win b.win (freshOf st "b" a.shape a.ap.o.col).win (fun x y => .app2 op x y)
       pure ⟨s, none, .fresh (freshOf st "b" a.shape a.ap.o.col)⟩) := by
   unfold engCmpVV
-  simp only [hc.ta, hc.tb, hc.ne, hc.sh, hfo_none, hia, hib, hord, newDenseZero_eq, bind, Except.bind, pure,
+  simp only [hc.ta, hc.tb, hc.ne, hc.sh, hfo_none, prepAliasVV_none, prepAliasT_none, hia, hib, hord, newDenseZero_eq, bind, Except.bind, pure,
     Except.pure, Bool.not_true, Bool.false_eq_true, if_false, Bool.or_false, Bool.and_false, Bool.not_false,
     Bool.and_true, if_true, Bool.false_and, Bool.true_and, Bool.or_self, Bool.false_or]
 
@@ -1612,7 +1824,7 @@ theorem engCmpVV_raw_same (st : St) (op : String) (tc : List String) (a b : Dens
       let s ← eOp s (freshOf st a.dt a.shape a.ap.o.col).win b.win (fun x y => .app2 (op ++ ".same") x y)
       pure ⟨s, none, .fresh (freshOf st a.dt a.shape a.ap.o.col)⟩) := by
   unfold engCmpVV
-  simp only [hc.ta, hc.tb, hc.ne, hc.sh, hfo_none, hia, hib, hord, newDenseZero_eq, bind, Except.bind, pure,
+  simp only [hc.ta, hc.tb, hc.ne, hc.sh, hfo_none, prepAliasVV_none, prepAliasT_none, hia, hib, hord, newDenseZero_eq, bind, Except.bind, pure,
     Except.pure, Bool.not_true, Bool.false_eq_true, if_false, Bool.or_false, Bool.and_false, Bool.not_false,
     Bool.and_true, if_true, Bool.false_and, Bool.true_and, Bool.or_self, Bool.false_or, Bool.true_or]
 
@@ -1622,7 +1834,7 @@ theorem engCmpVV_raw_unsafe (st : St) (op : String) (tc : List String) (a b : De
       let s ← eOp st a.win b.win (fun x y => .app2 (op ++ ".same") x y)
       pure ⟨s, none, .a⟩) := by
   unfold engCmpVV
-  simp only [hc.ta, hc.tb, hc.ne, hc.sh, hfo_none, hia, hib, hord, newDenseZero_eq, bind, Except.bind, pure,
+  simp only [hc.ta, hc.tb, hc.ne, hc.sh, hfo_none, prepAliasVV_none, prepAliasT_none, hia, hib, hord, newDenseZero_eq, bind, Except.bind, pure,
     Except.pure, Bool.not_true, Bool.false_eq_true, if_false, Bool.or_false, Bool.and_false, Bool.not_false,
     Bool.and_true, if_true, Bool.false_and, Bool.true_and, Bool.or_self, Bool.false_or, Bool.or_true]
 
@@ -1703,20 +1915,24 @@ theorem engCmpVV_refuses' (st : St) (op : String) (tc : List String) (a b : Dens
   unfold engCmpVV
   simp only [h, bind, Except.bind, Bool.not_false, if_true, throwErr]
 
+/-- a scalar that does not stand for a tensor (a literal) is not re-read after `handleFuncOpts` -/
+theorem ScalarArg.refresh_none (s : St) (sc : ScalarArg) (h : sc.src = none) : sc.refresh s = s := by
+  simp [ScalarArg.refresh, h]
+
 theorem engCmpScalar_raw_default_right (st : St) (op : String) (tc : List String) (t : Dense) (sc : ScalarArg)
-    (hta : tc.contains t.dt = true) (hdt : t.dt = sc.dt) (hit : t.requiresIterator = false) :
+    (hta : tc.contains t.dt = true) (hdt : t.dt = sc.dt) (hsrc : sc.src = none) (hit : t.requiresIterator = false) :
     engCmpScalar st op tc t sc false {} = (do
       let s ← eCmp (allocZero st (denseLen t.shape)) sc.win t.win (freshOf st "b" t.shape t.ap.o.col).win (fun x y => .app2 op x y)
       pure ⟨s, none, .fresh (freshOf st "b" t.shape t.ap.o.col)⟩) := by
   have hne : (t.dt != sc.dt) = false := by simp [hdt]
   unfold engCmpScalar
-  simp only [hta, hne, hfo_none, hit, newDenseZero_eq, bind, Except.bind, pure,
+  simp only [hta, hne, ScalarArg.refresh_none _ _ hsrc, hfo_none, prepAliasVV_none, prepAliasT_none, hit, newDenseZero_eq, bind, Except.bind, pure,
     Except.pure, Bool.not_true, Bool.false_eq_true, if_false, Bool.or_false, Bool.and_false, Bool.not_false,
     Bool.and_true, if_true, Bool.false_and, Bool.true_and, Bool.or_self, Bool.false_or]
 
 /-- scalar on the LEFT (`leftTensor = false`), default mode: cell `i` of the fresh bool tensor is `op s t[i]` -/
 theorem engCmpScalar_left' (st : St) (op : String) (tc : List String) (t : Dense) (sc : ScalarArg)
-    (hta : tc.contains t.dt = true) (hdt : t.dt = sc.dt) (hit : t.requiresIterator = false)
+    (hta : tc.contains t.dt = true) (hdt : t.dt = sc.dt) (hsrc : sc.src = none) (hit : t.requiresIterator = false)
     (hs1 : sc.win.len = 1) (ht1 : t.win.len ≠ 1) (hsz : t.win.len = denseLen t.shape)
     (hS : InBuf st sc.win.buf sc.win.off 1) (hT : InBuf st t.win.buf t.win.off t.win.len) :
     ∃ st', engCmpScalar st op tc t sc false {} = .ok ⟨st', none, .fresh (freshOf st "b" t.shape t.ap.o.col)⟩ ∧
@@ -1724,7 +1940,7 @@ theorem engCmpScalar_left' (st : St) (op : String) (tc : List String) (t : Dense
       (∀ i, i < t.win.len → cell st' st.heap.size i =
         some (.app2 op (cellD st sc.win.buf sc.win.off) (cellD st t.win.buf (t.win.off + i)))) ∧
       (∀ b' k, b' < st.heap.size → cell st' b' k = cell st b' k) := by
-  rw [engCmpScalar_raw_default_right st op tc t sc hta hdt hit,
+  rw [engCmpScalar_raw_default_right st op tc t sc hta hdt hsrc hit,
     eCmp_SV _ _ _ _ _ hs1 ht1 (by simp only [freshOf, ← hsz]; exact ht1)]
   have hs0 : cell (allocZero st (denseLen t.shape)) sc.win.buf sc.win.off = some (cellD st sc.win.buf sc.win.off) := by
     rw [allocZero_cell_lt _ _ _ _ hS.lt]
@@ -1748,14 +1964,14 @@ theorem engCmpScalar_left' (st : St) (op : String) (tc : List String) (t : Dense
 /-- `UseUnsafe()` with the scalar on the left, raw path: the in-place kernel, then — both sides having one element — the
     copy of the scalar's header back into the tensor -/
 theorem engCmpScalar_raw_unsafe_left (st : St) (op : String) (tc : List String) (t : Dense) (sc : ScalarArg)
-    (hta : tc.contains t.dt = true) (hdt : t.dt = sc.dt) (hit : t.requiresIterator = false) :
+    (hta : tc.contains t.dt = true) (hdt : t.dt = sc.dt) (hsrc : sc.src = none) (hit : t.requiresIterator = false) :
     engCmpScalar st op tc t sc false { unsafe_ := true } = (do
       let s ← eOp st sc.win t.win (fun x y => .app2 (op ++ ".same") x y)
       let s ← (if (sc.win.len == 1 && t.win.len == 1) = true then Dense.rawCopy s t.win sc.win else pure s)
       pure ⟨s, none, .a⟩) := by
   have hne : (t.dt != sc.dt) = false := by simp [hdt]
   unfold engCmpScalar
-  simp only [hta, hne, hfo_none, hit, bind, Except.bind, pure,
+  simp only [hta, hne, ScalarArg.refresh_none _ _ hsrc, hfo_none, prepAliasVV_none, prepAliasT_none, hit, bind, Except.bind, pure,
     Except.pure, Bool.not_true, Bool.false_eq_true, if_false, Bool.or_false, Bool.and_false, Bool.not_false,
     Bool.and_true, if_true, Bool.false_and, Bool.true_and, Bool.or_self, Bool.false_or, Bool.or_true]
 
@@ -1763,7 +1979,7 @@ theorem engCmpScalar_raw_unsafe_left (st : St) (op : String) (tc : List String) 
     1/0 form `op.same s t[0]` (scalar FIRST) and the tensor is returned; apart from the scalar's temporary header
     nothing else changes. -/
 theorem engCmpScalar_unsafe_left_one' (st : St) (op : String) (tc : List String) (t : Dense) (sc : ScalarArg)
-    (hta : tc.contains t.dt = true) (hdt : t.dt = sc.dt) (hs1 : sc.win.len = 1) (ht1 : t.win.len = 1)
+    (hta : tc.contains t.dt = true) (hdt : t.dt = sc.dt) (hsrc : sc.src = none) (hs1 : sc.win.len = 1) (ht1 : t.win.len = 1)
     (hne : sc.win.buf ≠ t.win.buf) (hcap : 1 ≤ t.win.cap)
     (hS : InBuf st sc.win.buf sc.win.off 1) (hT : InBuf st t.win.buf t.win.off 1) :
     ∃ st', engCmpScalar st op tc t sc false { unsafe_ := true } = .ok ⟨st', none, .a⟩ ∧ st'.mheap = st.mheap ∧
@@ -1771,7 +1987,7 @@ theorem engCmpScalar_unsafe_left_one' (st : St) (op : String) (tc : List String)
         some (.app2 (op ++ ".same") (cellD st sc.win.buf sc.win.off) (cellD st t.win.buf t.win.off)) ∧
       (∀ b' k, b' ≠ sc.win.buf → (b' ≠ t.win.buf ∨ k ≠ t.win.off) → cell st' b' k = cell st b' k) := by
   have hit : t.requiresIterator = false := by simp [Dense.requiresIterator, ht1]
-  rw [engCmpScalar_raw_unsafe_left st op tc t sc hta hdt hit, eOp_VV _ _ _ _ _ (by rw [hs1, ht1])]
+  rw [engCmpScalar_raw_unsafe_left st op tc t sc hta hdt hsrc hit, eOp_VV _ _ _ _ _ (by rw [hs1, ht1])]
   obtain ⟨s1, h1, w1⟩ := kVV_spec st sc.win t.win (fun x y => .app2 (op ++ ".same") x y) hne (by rw [hs1]; exact hcap)
     (by rw [hs1]; exact hS.has) (by rw [hs1]; exact hT.has)
   rw [hs1] at w1
@@ -1787,7 +2003,173 @@ theorem engCmpScalar_unsafe_left_one' (st : St) (op : String) (tc : List String)
   · intro b' k hb' hbk
     rw [w2.frame b' k (by rcases hbk with h | h; exact Or.inl h; exact Or.inr (by omega)), w1.other hb']
 
+/-! ### scalar on the left, iterator path, result of the operand's type (finding F31, repaired) -/
+
+theorem hfo_reuse_same (st : St) (sh : Shape) (dt : String) (col strict : Bool) (r : Dense) (sm : Bool)
+    (h : ReuseFits r sh dt col) :
+    handleFuncOpts st sh dt col strict { reuse := some r, same := sm } =
+      .ok (st, { reuse := some r, safe := true, toReuse := true, incr := false, same := sm }) := by
+  unfold handleFuncOpts
+  simp [h.dt, h.len, h.shape, h.col, bind, Except.bind, pure, Except.pure]
+
+/-- The two steps the scalar-tensor methods take on the iterator path when the result has the operand's type:
+    `storage.CopyIter(dataReuse, dataB, iit, bit)` and then the in-place scalar-vector kernel over the *result* with the
+    result's own iterator (`<Op>Iter(typ, dataA, dataReuse, ait, iit)`). At the `k`-th position of the two iterators the
+    result's cell receives `f s t[k-th]`; nothing outside the result's buffer changes. -/
+theorem copyIter_then_kIterSV (s0 : St) (t r sc : Win) (f : BinF) (ro to_ : List Int)
+    (hnrt : r.buf ≠ t.buf) (hnrs : r.buf ≠ sc.buf) (hcr : r.len ≤ r.cap) (hct : t.len ≤ t.cap)
+    (hor : ∀ i ∈ ro, 0 ≤ i ∧ i < (r.len : Int)) (hot : ∀ j ∈ to_, 0 ≤ j ∧ j < (t.len : Int)) (hnd : ro.Nodup)
+    (hR : Has s0 r.buf r.off r.len) (hT : Has s0 t.buf t.off t.len) (hS : Has s0 sc.buf sc.off 1) :
+    ∃ s2, (do let s ← Dense.copyIterOffsets s0 r t ro to_
+              kIterSV s (← s.rd sc 1 0) r f (ro.map (·, true))) = .ok s2 ∧
+      s2.mheap = s0.mheap ∧
+      (∀ (k : Nat) m j, ro[k]? = some m → to_[k]? = some j →
+        cell s2 r.buf (r.off + m.toNat) =
+          some (f (cellD s0 sc.buf sc.off) (cellD s0 t.buf (t.off + j.toNat)))) ∧
+      (∀ b' k', b' ≠ r.buf → cell s2 b' k' = cell s0 b' k') := by
+  obtain ⟨s1, h1, hm1, _, hv1, hf1⟩ := copyIterOffsets_spec s0 r t ro to_ r.len t.len hnrt hcr hct hor hot hnd hR hT
+  have hkeep : ∀ {b off n : Nat}, Has s0 b off n → Has s1 b off n :=
+    copyIterOffsets_has s0 s1 r ro to_ (fun k i j hi hj => by rw [hv1 k i j hi hj]; rfl) hf1
+  have hsc : cell s1 sc.buf sc.off = some (cellD s0 sc.buf sc.off) := by
+    rw [hf1 _ _ (Or.inl hnrs.symm)]
+    exact cell_some_cellD (by simpa using hS 0 (by omega))
+  obtain ⟨s2, h2, hm2, _, hv2, hf2⟩ := kIterSV_spec s1 (cellD s0 sc.buf sc.off) r f (ro.map (·, true))
+    (inRange_map_true hor) (by rw [map_true_fst]; exact hnd) (hkeep hR)
+  refine ⟨s2, by simp only [h1, rd0_of_cell hsc, h2, bind, Except.bind], hm2.trans hm1, ?_, ?_⟩
+  · intro k m j hm hj
+    rw [hv2 m (List.mem_of_getElem? (getElem?_map_true hm)), cellD_of_some (hv1 k m j hm hj)]
+  · intro b' k' hb'
+    rw [hf2 _ _ (Or.inl hb'), hf1 _ _ (Or.inl hb')]
+
+/-- which path `<Cmp>Scalar(t, s, leftTensor = false, WithReuse(r), AsSameType())` takes for an operand that needs an
+    iterator: the copy of the operand into `r` along the two iterators, then the 1/0 kernel over `r` with `r`'s iterator -/
+theorem engCmpScalar_iter_same_left_reuse (st : St) (op : String) (tc : List String) (t r : Dense) (sc : ScalarArg)
+    (hta : tc.contains t.dt = true) (hdt : t.dt = sc.dt) (hsrc : sc.src = none) (hit : t.requiresIterator = true)
+    (hnsc : isScalar t.shape = false) (hs1 : sc.win.len = 1)
+    (hmt : t.mask = none) (hmr : r.mask = none) (hr : ReuseFits r t.shape t.dt t.ap.o.col)
+    (hst : sharesMemory t r = false) :
+    engCmpScalar st op tc t sc false { reuse := some r, same := true } = (do
+      let s ← Dense.copyIterOffsets st r.win t.win r.offsets t.offsets
+      let s ← eOpIter s sc.win r.win (fun x y => .app2 (op ++ ".same") x y) [] (r.offsets.map (·, true))
+      pure ⟨s, some r, .reuse⟩) := by
+  have hne : (t.dt != sc.dt) = false := by simp [hdt]
+  have hl : (sc.win.len != 1) = false := by simp [hs1]
+  unfold engCmpScalar
+  simp only [hta, hne, ScalarArg.refresh_none _ _ hsrc, hfo_reuse_same _ _ _ _ _ _ _ hr, prepAliasT_sep _ _ _ hst, hit, hnsc, hl, itStream_nomask _ _ hmt, itStream_nomask _ _ hmr,
+    map_true_fst, bind, Except.bind, pure, Except.pure,
+    Bool.not_true, Bool.false_eq_true, if_false, Bool.or_false, Bool.and_false, Bool.not_false,
+    Bool.and_true, if_true, Bool.true_or, Bool.false_and, Bool.true_and, Bool.or_true]
+
+/-- **F31 repaired**, destination given: at the `k`-th position of the iterators of `r` and `t`, `r` receives
+    `op.same s t[k-th]` — scalar first; nothing outside `r`'s buffer changes -/
+theorem engCmpScalar_iter_same_left_reuse' (st : St) (op : String) (tc : List String) (t r : Dense) (sc : ScalarArg)
+    (hta : tc.contains t.dt = true) (hdt : t.dt = sc.dt) (hsrc : sc.src = none) (hit : t.requiresIterator = true)
+    (hnsc : isScalar t.shape = false) (hs1 : sc.win.len = 1)
+    (hmt : t.mask = none) (hmr : r.mask = none) (hr : ReuseFits r t.shape t.dt t.ap.o.col)
+    (hnrt : r.win.buf ≠ t.win.buf) (hnrs : r.win.buf ≠ sc.win.buf) (hlr : r.win.len ≠ 1)
+    (hcr : r.win.len ≤ r.win.cap) (hct : t.win.len ≤ t.win.cap)
+    (hor : ∀ i ∈ r.offsets, 0 ≤ i ∧ i < (r.win.len : Int)) (hot : ∀ j ∈ t.offsets, 0 ≤ j ∧ j < (t.win.len : Int))
+    (hnd : r.offsets.Nodup)
+    (hR : InBuf st r.win.buf r.win.off r.win.len) (hT : InBuf st t.win.buf t.win.off t.win.len)
+    (hS : InBuf st sc.win.buf sc.win.off 1) :
+    ∃ st', engCmpScalar st op tc t sc false { reuse := some r, same := true } = .ok ⟨st', some r, .reuse⟩ ∧
+      st'.mheap = st.mheap ∧
+      (∀ (k : Nat) m j, r.offsets[k]? = some m → t.offsets[k]? = some j →
+        cell st' r.win.buf (r.win.off + m.toNat) =
+          some (.app2 (op ++ ".same") (cellD st sc.win.buf sc.win.off) (cellD st t.win.buf (t.win.off + j.toNat)))) ∧
+      (∀ b' k', b' ≠ r.win.buf → cell st' b' k' = cell st b' k') := by
+  rw [engCmpScalar_iter_same_left_reuse st op tc t r sc hta hdt hsrc hit hnsc hs1 hmt hmr hr (sharesMemory_of_buf_ne hnrt.symm)]
+  obtain ⟨s2, h2, hm2, hv2, hf2⟩ := copyIter_then_kIterSV st t.win r.win sc.win (fun x y => .app2 (op ++ ".same") x y)
+    r.offsets t.offsets hnrt hnrs hcr hct hor hot hnd hR.has hT.has hS.has
+  refine ⟨s2, ?_, hm2, hv2, hf2⟩
+  simp only [bind, Except.bind] at h2 ⊢
+  cases hc : Dense.copyIterOffsets st r.win t.win r.offsets t.offsets with
+  | error e => rw [hc] at h2; cases h2
+  | ok s1 =>
+    rw [hc] at h2
+    simp only [] at h2 ⊢
+    rw [eOpIter_SV _ _ _ _ _ _ _ hs1 hlr]
+    simp only [bind, Except.bind]
+    cases hrd : s1.rd sc.win 1 0 with
+    | error e => rw [hrd] at h2; cases h2
+    | ok v => rw [hrd] at h2; simp only [] at h2 ⊢; rw [h2]; rfl
+
+/-- the same call without a destination (`AsSameType()` alone; the shape of the former witness of F31): the result is
+    created with the operand's shape and data order, receives the operand's elements along the two iterators, and the
+    1/0 kernel runs over it with its own iterator -/
+theorem engCmpScalar_iter_same_left (st : St) (op : String) (tc : List String) (t : Dense) (sc : ScalarArg)
+    (hta : tc.contains t.dt = true) (hdt : t.dt = sc.dt) (hsrc : sc.src = none) (hit : t.requiresIterator = true)
+    (hnsc : isScalar t.shape = false) (hs1 : sc.win.len = 1) (hmt : t.mask = none) :
+    engCmpScalar st op tc t sc false { same := true } = (do
+      let s ← Dense.copyIterOffsets (allocZero st (denseLen t.shape)) (freshOf st t.dt t.shape t.ap.o.col).win t.win
+        (freshOf st t.dt t.shape t.ap.o.col).offsets t.offsets
+      let s ← eOpIter s sc.win (freshOf st t.dt t.shape t.ap.o.col).win (fun x y => .app2 (op ++ ".same") x y) []
+        ((freshOf st t.dt t.shape t.ap.o.col).offsets.map (·, true))
+      pure ⟨s, none, .fresh (freshOf st t.dt t.shape t.ap.o.col)⟩) := by
+  have hne : (t.dt != sc.dt) = false := by simp [hdt]
+  have hl : (sc.win.len != 1) = false := by simp [hs1]
+  have hmf : (freshOf st t.dt t.shape t.ap.o.col).mask = none := rfl
+  unfold engCmpScalar
+  simp only [hta, hne, ScalarArg.refresh_none _ _ hsrc, hfo_none, prepAliasVV_none, prepAliasT_none, hit, hnsc, hl, newDenseZero_eq, itStream_nomask _ _ hmt, itStream_nomask _ _ hmf,
+    map_true_fst, bind, Except.bind, pure, Except.pure,
+    Bool.not_true, Bool.false_eq_true, if_false, Bool.or_false, Bool.and_false, Bool.not_false,
+    Bool.and_true, if_true, Bool.true_or, Bool.false_and, Bool.true_and, Bool.or_true]
+
+/-- **F31 repaired**, no destination given: the fresh tensor `r` of the operand's type, shape and data order holds, at
+    the `k`-th offset of its own iterator, `op.same s t[k-th]` (scalar first, the operand's `k`-th logical element);
+    every existing buffer is unchanged -/
+theorem engCmpScalar_iter_same_left' (st : St) (op : String) (tc : List String) (t : Dense) (sc : ScalarArg)
+    (hta : tc.contains t.dt = true) (hdt : t.dt = sc.dt) (hsrc : sc.src = none) (hit : t.requiresIterator = true)
+    (hnsc : isScalar t.shape = false) (hs1 : sc.win.len = 1) (hmt : t.mask = none)
+    (hl1 : denseLen t.shape ≠ 1) (hct : t.win.len ≤ t.win.cap)
+    (hor : ∀ i ∈ (freshOf st t.dt t.shape t.ap.o.col).offsets, 0 ≤ i ∧ i < (denseLen t.shape : Int))
+    (hot : ∀ j ∈ t.offsets, 0 ≤ j ∧ j < (t.win.len : Int))
+    (hnd : (freshOf st t.dt t.shape t.ap.o.col).offsets.Nodup)
+    (hT : InBuf st t.win.buf t.win.off t.win.len) (hS : InBuf st sc.win.buf sc.win.off 1) :
+    ∃ st', engCmpScalar st op tc t sc false { same := true } =
+        .ok ⟨st', none, .fresh (freshOf st t.dt t.shape t.ap.o.col)⟩ ∧ st'.mheap = st.mheap ∧
+      (∀ (k : Nat) m j, (freshOf st t.dt t.shape t.ap.o.col).offsets[k]? = some m → t.offsets[k]? = some j →
+        cell st' st.heap.size m.toNat =
+          some (.app2 (op ++ ".same") (cellD st sc.win.buf sc.win.off) (cellD st t.win.buf (t.win.off + j.toNat)))) ∧
+      (∀ b' k', b' < st.heap.size → cell st' b' k' = cell st b' k') := by
+  rw [engCmpScalar_iter_same_left st op tc t sc hta hdt hsrc hit hnsc hs1 hmt]
+  obtain ⟨s2, h2, hm2, hv2, hf2⟩ := copyIter_then_kIterSV (allocZero st (denseLen t.shape)) t.win
+    (freshOf st t.dt t.shape t.ap.o.col).win sc.win (fun x y => .app2 (op ++ ".same") x y)
+    (freshOf st t.dt t.shape t.ap.o.col).offsets t.offsets
+    (by simp only [freshOf]; exact (Nat.ne_of_lt hT.lt).symm) (by simp only [freshOf]; exact (Nat.ne_of_lt hS.lt).symm)
+    (by simp only [freshOf]; exact Nat.le_refl _) hct (by simpa only [freshOf] using hor) hot hnd
+    (by simp only [freshOf]; exact allocZero_has st _) (hT.has.allocZero hT.lt _) (hS.has.allocZero hS.lt _)
+  refine ⟨s2, ?_, hm2, ?_, ?_⟩
+  · simp only [bind, Except.bind] at h2 ⊢
+    cases hc : Dense.copyIterOffsets (allocZero st (denseLen t.shape)) (freshOf st t.dt t.shape t.ap.o.col).win t.win
+        (freshOf st t.dt t.shape t.ap.o.col).offsets t.offsets with
+    | error e => rw [hc] at h2; cases h2
+    | ok s1 =>
+      rw [hc] at h2
+      simp only [] at h2 ⊢
+      rw [eOpIter_SV _ _ _ _ _ _ _ hs1 (by simp only [freshOf]; exact hl1)]
+      simp only [bind, Except.bind]
+      cases hrd : s1.rd sc.win 1 0 with
+      | error e => rw [hrd] at h2; cases h2
+      | ok v => rw [hrd] at h2; simp only [] at h2 ⊢; rw [h2]; rfl
+  · intro k m j hm hj
+    have := hv2 k m j hm hj
+    simp only [freshOf, Nat.zero_add] at this
+    rw [this, allocZero_cellD_lt _ _ _ _ hS.lt, allocZero_cellD_lt _ _ _ _ hT.lt]
+  · intro b' k' hb'
+    rw [hf2 _ _ (by simp only [freshOf]; exact Nat.ne_of_lt hb'), allocZero_cell_lt _ _ _ _ hb']
+
 /-! ### `engUnary`, `engMap` -/
+
+/-- a destination that `handleFuncOpts` accepts as it is has the operand's data order (`prepDataUnary` asks for iterators
+    when the two orders differ) -/
+theorem ReuseFits.sameOrd {r a : Dense} {sh : Shape} {dt : String} (h : ReuseFits r sh dt a.ap.o.col) :
+    sameOrd r a = true := by
+  unfold TM.sameOrd
+  simp [h.col]
+
+theorem cloneOf_sameOrd (st : St) (a : Dense) : sameOrd (cloneOf st a) a = true := by
+  simp [TM.sameOrd, cloneOf]
 
 theorem shapeEq_self (s : Shape) : shapeEq s s = true := by
   unfold shapeEq
@@ -1827,7 +2209,7 @@ theorem engUnary_raw_reuse (st : St) (g : UnF) (tc kt : List String) (strict : B
       let s ← kUn s r.win g
       pure ⟨s, some r, .reuse⟩) := by
   unfold engUnary
-  simp only [hta, hk, hfo_reuse _ _ _ _ _ _ hr, hia, hir, bind, Except.bind, pure, Except.pure, Bool.not_true,
+  simp only [hta, hk, hfo_reuse _ _ _ _ _ _ hr, hia, hir, hr.sameOrd, bind, Except.bind, pure, Except.pure, Bool.not_true,
     Bool.false_eq_true, if_false, Bool.or_false, Bool.not_false, if_true]
 
 theorem engUnary_refuses' (st : St) (g : UnF) (tc kt : List String) (strict : Bool) (a : Dense) (o : Opts)
@@ -1914,8 +2296,8 @@ theorem engMap_safe' (st : St) (g : UnF) (mt : List String) (a : Dense)
   have hic : (cloneOf st a).requiresIterator = false := by rw [cloneOf_requiresIterator st a hm, hia]
   have hfin := mapFin_created a (cloneOf st a) none rfl s2
   unfold engMap mapKern
-  simp only [hfo_none, materialize_self' st a hmz, h1, hia, hic, hmt, h2, hfin, bind, Except.bind, pure, Except.pure,
-    Bool.not_true, Bool.false_eq_true, if_false, Bool.or_false, Bool.not_false, if_true]
+  simp only [hfo_none, materialize_self' st a hmz, h1, hia, hic, cloneOf_sameOrd, hmt, h2, hfin, bind, Except.bind, pure,
+    Except.pure, Bool.not_true, Bool.false_eq_true, if_false, Bool.or_false, Bool.not_false, if_true]
   simp only [cloneOf] at w2
   refine ⟨s2, _, rfl, w2.mheap.trans hm1, rfl, rfl, rfl, ?_, ?_⟩
   · intro i hi
@@ -1947,7 +2329,7 @@ theorem engMap_raw_reuse (st : St) (g : UnF) (mt : List String) (a r : Dense)
       mapFin a (some r) (some r) false s) := by
   have hts' : (totalSize a.shape != totalSize r.shape) = false := by simp [hts]
   unfold engMap mapKern
-  simp only [hfo_reuse _ _ _ _ _ _ hr, hts', hia, hir, hmt, bind, Except.bind, pure, Except.pure,
+  simp only [hfo_reuse _ _ _ _ _ _ hr, hts', hia, hir, hr.sameOrd, hmt, bind, Except.bind, pure, Except.pure,
     Bool.not_true, Bool.false_eq_true, if_false, Bool.or_false, Bool.not_false, if_true]
 
 /-- `Map` with a reuse tensor (finding F34, repaired): the reuse tensor receives `g a[i]`; nothing outside its window
@@ -1984,7 +2366,7 @@ theorem engMap_raw_incr (st : St) (g : UnF) (mt : List String) (a r : Dense)
       mapFin a (some r) (some r) false s) := by
   have hts' : (totalSize a.shape != totalSize r.shape) = false := by simp [hts]
   unfold engMap mapKern
-  simp only [hfo_incr _ _ _ _ _ _ hr, hts', hia, hir, hmt, hnb, bind, Except.bind, pure, Except.pure,
+  simp only [hfo_incr _ _ _ _ _ _ hr, hts', hia, hir, hr.sameOrd, hmt, hnb, bind, Except.bind, pure, Except.pure,
     Bool.not_true, Bool.false_eq_true, if_false, Bool.or_false, Bool.not_false, if_true]
 
 /-- `Map` with an increment tensor (finding F34, repaired): `r[i] += g a[i]`; the operand and every other existing cell
@@ -2035,6 +2417,100 @@ theorem engMap_incr' (st : St) (g : UnF) (mt : List String) (a r : Dense)
     rw [e1, e2]
   · intro b' k hb' hbk
     rw [w3.frame b' k hbk, w2.other (by simpa [cloneOf] using Nat.ne_of_lt hb'), hf1 b' k hb']
+
+/-! ### unary operations with an increment tensor of the other data order (part of finding F35, repaired) -/
+
+/-- an increment tensor that `handleFuncOpts` accepts as it is — whatever its data order (`WithIncr` never touches the
+    order flag) -/
+structure IncrFits (r : Dense) (sh : Shape) (dt : String) : Prop where
+  dt : r.dt = dt
+  len : (r.win.len : Int) = totalSize sh
+  shape : shapeEq r.shape sh = true
+
+theorem hfo_incr_any (st : St) (sh : Shape) (dt : String) (col strict : Bool) (r : Dense)
+    (h : IncrFits r sh dt) :
+    handleFuncOpts st sh dt col strict { incr := some r } =
+      .ok (st, { reuse := some r, safe := true, toReuse := true, incr := true, same := false }) := by
+  unfold handleFuncOpts
+  simp [h.dt, h.len, h.shape, bind, Except.bind, pure, Except.pure]
+
+/-- `prepDataUnary` sends a contiguous operand and a contiguous increment tensor of the *other* data order to the iterator
+    path: the function runs over a clone of the operand, which is then added to the increment along the two iterators -/
+theorem engUnary_incr_mixed_order (st : St) (g : UnF) (tc kt : List String) (strict : Bool) (a r : Dense)
+    (hta : tc.contains a.dt = true) (hk : kt.contains a.dt = true) (hord : sameOrd r a = false)
+    (hma : a.mask = none) (hmr : r.mask = none) (hr : IncrFits r a.shape a.dt) :
+    engUnary st g tc kt strict a { incr := some r } = (do
+      let (s, c) ← a.clone st
+      let s ← kUnIter s c.win g (a.offsets.map (·, true))
+      let s ← eOpIter s r.win c.win (fun x y => .app2 "add" x y) (r.offsets.map (·, true)) (a.offsets.map (·, true))
+      pure ⟨s, some r, .reuse⟩) := by
+  unfold engUnary
+  simp only [hta, hk, hfo_incr_any _ _ _ _ _ _ hr, hord, itStream_nomask _ _ hma, itStream_nomask _ _ hmr,
+    bind, Except.bind, pure, Except.pure, Bool.not_true, Bool.false_eq_true, if_false, Bool.or_false, Bool.not_false,
+    if_true, Bool.or_true]
+
+/-- … and what that computes: at the `k`-th position of the two iterators the increment tensor's cell receives
+    `+ g a[k-th]` — by coordinate, whatever the two storage orders; the operand and every other existing cell are
+    unchanged -/
+theorem engUnary_incr_mixed_order' (st : St) (g : UnF) (tc kt : List String) (strict : Bool) (a r : Dense)
+    (hta : tc.contains a.dt = true) (hk : kt.contains a.dt = true) (hord : sameOrd r a = false)
+    (hma : a.mask = none) (hmr : r.mask = none) (hr : IncrFits r a.shape a.dt)
+    (hla : a.win.len ≠ 1) (hlr : r.win.len ≠ 1)
+    (hor : ∀ i ∈ r.offsets, 0 ≤ i ∧ i < (r.win.len : Int)) (hoa : ∀ j ∈ a.offsets, 0 ≤ j ∧ j < (a.win.len : Int))
+    (hndr : r.offsets.Nodup) (hnda : a.offsets.Nodup)
+    (hA : InBuf st a.win.buf a.win.off a.win.len) (hR : InBuf st r.win.buf r.win.off r.win.len) :
+    ∃ st', engUnary st g tc kt strict a { incr := some r } = .ok ⟨st', some r, .reuse⟩ ∧ st'.mheap = st.mheap ∧
+      (∀ (k : Nat) m j, r.offsets[k]? = some m → a.offsets[k]? = some j →
+        cell st' r.win.buf (r.win.off + m.toNat) =
+          some (.app2 "add" (cellD st r.win.buf (r.win.off + m.toNat)) (g (cellD st a.win.buf (a.win.off + j.toNat))))) ∧
+      (∀ b' k', b' < st.heap.size → b' ≠ r.win.buf → cell st' b' k' = cell st b' k') := by
+  rw [engUnary_incr_mixed_order st g tc kt strict a r hta hk hord hma hmr hr]
+  obtain ⟨s1, h1, hm1, hs1, hv1, hf1⟩ := clone_spec st a hma hA.lt hA.has
+  have hHc : Has s1 st.heap.size 0 a.win.len := by
+    intro i hi
+    rw [Nat.zero_add, hv1 i hi]; rfl
+  obtain ⟨s2, h2, hm2, hs2, hv2, hf2⟩ := kUnIter_spec s1 (cloneOf st a).win g (a.offsets.map (·, true))
+    (by simp only [cloneOf]; exact inRange_map_true hoa) (by rw [map_true_fst]; exact hnda)
+    (by simp only [cloneOf]; exact hHc)
+  have hrb : r.win.buf ≠ st.heap.size := Nat.ne_of_lt hR.lt
+  have hR1 : Has s1 r.win.buf r.win.off r.win.len := by
+    intro i hi
+    rw [hf1 _ _ hR.lt]; exact hR.has i hi
+  have hR2 : Has s2 r.win.buf r.win.off r.win.len := by
+    intro i hi
+    rw [hf2 _ _ (Or.inl (by simpa [cloneOf] using hrb))]; exact hR1 i hi
+  have hC2 : Has s2 st.heap.size 0 a.win.len := by
+    intro m hm
+    by_cases hex : ∃ i, (i, true) ∈ a.offsets.map (·, true) ∧ 0 + m = 0 + i.toNat
+    · obtain ⟨i, hi, he⟩ := hex
+      have := hv2 i hi
+      simp only [cloneOf] at this
+      rw [he, this]; rfl
+    · have := hf2 st.heap.size (0 + m) (Or.inr (fun i hi he => hex ⟨i, hi, by simpa [cloneOf] using he⟩))
+      rw [this]; exact hHc m hm
+  obtain ⟨s3, h3, hm3, _, hv3, hf3⟩ := kIterVV_spec s2 r.win (cloneOf st a).win (fun x y => .app2 "add" x y)
+    (r.offsets.map (·, true)) (a.offsets.map (·, true)) (by simpa [cloneOf] using hrb)
+    (inRange_map_true hor) (by simp only [cloneOf]; exact inRange_map_true hoa) (by rw [map_true_fst]; exact hndr)
+    hR2 (by simp only [cloneOf]; exact hC2)
+  have he : eOpIter s2 r.win (cloneOf st a).win (fun x y => .app2 "add" x y) (r.offsets.map (·, true))
+      (a.offsets.map (·, true)) = .ok s3 := by
+    rw [eOpIter_VV _ _ _ _ _ _ _ hlr (by simp only [cloneOf]; exact hla), h3]
+  refine ⟨s3, by simp only [h1, h2, he, bind, Except.bind]; rfl, hm3.trans (hm2.trans hm1), ?_, ?_⟩
+  · intro k m j hm hj
+    have hjr := hoa j (List.mem_of_getElem? hj)
+    have hvk := hv3 k m true j true (getElem?_map_true hm) (getElem?_map_true hj) rfl rfl
+    simp only [cloneOf, Nat.zero_add] at hvk
+    rw [hvk]
+    have e1 : cellD s2 r.win.buf (r.win.off + m.toNat) = cellD st r.win.buf (r.win.off + m.toNat) := by
+      unfold cellD
+      rw [hf2 _ _ (Or.inl (by simpa [cloneOf] using hrb)), hf1 _ _ hR.lt]
+    have hc2 := hv2 j (List.mem_of_getElem? (getElem?_map_true hj))
+    simp only [cloneOf, Nat.zero_add] at hc2
+    have e2 : cellD s2 st.heap.size j.toNat = g (cellD st a.win.buf (a.win.off + j.toNat)) := by
+      rw [cellD_of_some hc2, cellD_of_some (hv1 j.toNat (by omega))]
+    rw [e1, e2]
+  · intro b' k' hb' hne
+    rw [hf3 _ _ (Or.inl hne), hf2 _ _ (Or.inl (by simpa [cloneOf] using Nat.ne_of_lt hb')), hf1 b' k' hb']
 
 /-! ### link with C05: iterator offsets are the row-major logical offsets -/
 
